@@ -62,6 +62,20 @@ package backends
 //@   pure
 //@   ensures [function_of_prefix_ws_path_key] r == ite(gcs.prefix == "", gcs.workspacePrefix, gcs.prefix + "/" + gcs.workspacePrefix) + "/" + trimChars(path, "/") + "/" + trimChars(key, "/")
 
+// C08: the adapter between S3Cache and the AWS SDK: an upload is an unconditional overwrite of the key (a target result is
+// rewritten under its change hash whenever the target re-executes, so "already there" is not "already up to date"), and
+// PutObject reports success only if the store accepted this very upload; a download that the SDK reports as failed is a
+// failure of GetObject
+//@ func (*AWSS3Adapter).PutObject(a, ctx, bucket, key, body) (err)
+//@   modifies sdkPuts, sdkLastPutOK
+//@   ensures [success_means_the_store_accepted_this_upload] err == nil ==> sdkPuts == old(sdkPuts) + 1 && sdkLastPutOK
+//@   before_call PutObject#1 [unconditional_overwrite_of_the_given_key] arg2.IfNoneMatch == nil && arg2.IfMatch == nil && arg2.Bucket != nil && deref(arg2.Bucket) == bucket && arg2.Key != nil && deref(arg2.Key) == key
+
+//@ func (*AWSS3Adapter).GetObject(a, ctx, bucket, key) (r, err)
+//@   modifies sdkGets, sdkLastGetOK
+//@   ensures [sdk_failure_is_a_failure] sdkGets == old(sdkGets) + 1 && (err == nil <==> sdkLastGetOK)
+//@   before_call GetObject#1 [the_given_key] arg2.Bucket != nil && deref(arg2.Bucket) == bucket && arg2.Key != nil && deref(arg2.Key) == key
+
 // every S3 operation addresses the configured bucket (arg2) and the object name (arg3) computed by buildPath for (path, key)
 // C08: a download that the client reports as failed is a failure of Get, and what Get hands out is the client's body
 // itself (a broken-off download surfaces as a read error to the consumer, never as a complete shorter blob)
